@@ -47,6 +47,25 @@ Theorem C12_reply : forall x w f c1 w1 (p : option (N * bytes)),
     frame_into_close (f_payload (frame_close (expected_reply p))) = ROk (expected_reply p).
 Proof. exact reply_full. Qed.
 
+(* C12_reply end to end: the same, starting from the bytes of the peer's Close frame at the head of
+   in_buffer (`close_bytes m pl` is the model's Frame::format of a FIN Close frame with payload pl,
+   masked with key m for a server endpoint, unmasked for a client endpoint).  Nothing is read from the
+   transport (the world is unchanged) and the frame's bytes are consumed. *)
+Theorem C12_reply_bytes : forall x w m rest (p : option (N * bytes)),
+  x_state x = Active -> pend_free (x_additional x) ->
+  c_hdr (x_codec x) = None ->
+  c_in (x_codec x) = close_bytes m (peer_close_payload p) ++ rest ->
+  blen (peer_close_payload p) <= 125 ->
+  blen (peer_close_payload p) <= limit_of (cfg_max_frame_size (x_cfg x)) ->
+  peer_mask_ok (x_role x) m -> peer_close_ok p ->
+  exists x',
+    read_message_frame x w = (ROk (Some (MClose (expected_reply p))), x', w) /\
+    x_state x' = ClosedByPeer /\
+    x_additional x' = Some (frame_close (expected_reply p)) /\
+    c_in (x_codec x') = rest /\
+    frame_into_close (f_payload (frame_close (expected_reply p))) = ROk (expected_reply p).
+Proof. exact reply_from_bytes. Qed.
+
 (* C12_reply over whole runs: for every op list without raw control frames and without a user close,
    every transport oracle: if some read reported Close(c), then at the end of the run exactly one Close
    frame has been queued or is still parked, and its payload decodes to the reported c. *)
@@ -110,6 +129,14 @@ Theorem C12_ack : forall x w f c1 w1 (p : option (N * bytes)),
     x_state x' = CloseAcknowledged /\ x_additional x' = x_additional x.
 Proof. exact ack_full. Qed.
 
+(* the remaining states: once the peer's Close has been seen (ClosedByPeer, CloseAcknowledged) or the
+   connection is Terminated, a further frame — Close or not — is refused, nothing is reported or parked *)
+Theorem C12_after_close : forall x w f c1 w1,
+  can_read (x_state x) = false ->
+  the_read_frame x w = (ROk (Some f), c1, w1) ->
+  read_message_frame x w = (RErr (EProtocol ReceivedAfterClosing), set_codec x c1, w1).
+Proof. exact rmf_after_close. Qed.
+
 (* ---- non-vacuity ---- *)
 Definition ex_cfg : config := mkConfig 131072 u64_max (Some 67108864) (Some 16777216) false.
 Definition ex_ctx (r : role) : ctx :=
@@ -134,6 +161,20 @@ Proof.
   split; [reflexivity|]. split; [left; reflexivity|]. split; [eexists; eexists; vm_compute; reflexivity|].
   split; [|split; [reflexivity|split; [reflexivity|reflexivity]]].
   unfold close_frame_ok. cbn. repeat split; try discriminate; try lia.
+Qed.
+
+(* hypotheses of C12_reply_bytes: a server with the masked frame 88 82 01020304 02EA (code 1000) buffered *)
+Example C12_reply_bytes_hyps :
+  exists x, ctx_new Server (close_bytes (Some (1, 2, 3, 4)) (peer_close_payload (Some (1000, []))) ++ [9]) ex_cfg
+            = Some x /\
+    x_state x = Active /\ pend_free (x_additional x) /\ c_hdr (x_codec x) = None /\
+    c_in (x_codec x) = close_bytes (Some (1, 2, 3, 4)) (peer_close_payload (Some (1000, []))) ++ [9] /\
+    close_bytes (Some (1, 2, 3, 4)) (peer_close_payload (Some (1000, []))) = [136; 130; 1; 2; 3; 4; 2; 234] /\
+    peer_mask_ok (x_role x) (Some (1, 2, 3, 4)) /\ peer_close_ok (Some (1000, [])).
+Proof.
+  eexists. split; [reflexivity|]. split; [reflexivity|]. split; [left; reflexivity|].
+  split; [reflexivity|]. split; [reflexivity|]. split; [vm_compute; reflexivity|].
+  split; [exact I|split; reflexivity].
 Qed.
 
 (* the same for a client (unmasked frame from the server), code 1005 which may not appear on the wire *)
@@ -176,6 +217,7 @@ Proof. split; [|exact I]. repeat split. Qed.
 Print Assumptions C12_wire_allowed.
 Print Assumptions C12_close_roundtrip.
 Print Assumptions C12_reply.
+Print Assumptions C12_reply_bytes.
 Print Assumptions C12_reply_run.
 Print Assumptions C12_once.
 Print Assumptions C12_once_queued.
@@ -183,3 +225,4 @@ Print Assumptions C12_close_origin.
 Print Assumptions C12_not_displaced.
 Print Assumptions C12_pong_gives_way.
 Print Assumptions C12_ack.
+Print Assumptions C12_after_close.
